@@ -135,7 +135,7 @@ IsPrim(v) == v.t \notin {"obj", "unk", "err"}
 MkInt(sg, m) == IF Len(m) > 1000 THEN Unk ELSE IntV(sg, RoundNat(m))
 
 (* ---- code units ---- *)
-Lit(str) ==   \* the few string literals this module needs, as code units
+CU(str) ==   \* the few string literals this module needs, as code units
   CASE str = "undefined" -> <<117,110,100,101,102,105,110,101,100>>
     [] str = "null"      -> <<110,117,108,108>>
     [] str = "true"      -> <<116,114,117,101>>
@@ -151,6 +151,7 @@ Lit(str) ==   \* the few string literals this module needs, as code units
     [] str = "function"  -> <<102,117,110,99,116,105,111,110>>
     [] str = "[object Object]" -> <<91,111,98,106,101,99,116,32,79,98,106,101,99,116,93>>
     [] str = "k"         -> <<107>>
+    [] str = "symbol"    -> <<115,121,109,98,111,108>>
 
 (* ------------------------------------------------------------------ *)
 (* Number::add / subtract / multiply / divide / remainder             *)
@@ -240,9 +241,9 @@ DigitsOfNat(m) == IF m = <<>> THEN <<>>
 (* Number::toString(x, 10); integers only. Above 2^53 the shortest round-trip
    digit string is not the exact decimal expansion: Unk. *)
 NumToStr(v) ==
-  CASE v.t = "nan"   -> Str(Lit("NaN"))
-    [] v.t = "pinf"  -> Str(Lit("Infinity"))
-    [] v.t = "ninf"  -> Str(Lit("-Infinity"))
+  CASE v.t = "nan"   -> Str(CU("NaN"))
+    [] v.t = "pinf"  -> Str(CU("Infinity"))
+    [] v.t = "ninf"  -> Str(CU("-Infinity"))
     [] v.t = "nzero" -> Str(<<48>>)
     [] v.t = "int"   -> IF v.m = <<>> THEN Str(<<48>>)
                         ELSE IF NCmp(v.m, Pow2(53)) > 0 THEN Unk
@@ -261,7 +262,7 @@ NatOfDigits(s, radix) ==
   ELSE NAdd(NMul(NatOfDigits(SubSeq(s, 1, Len(s) - 1), radix), NatOfInt(radix)),
             NatOfInt(DigitVal(s[Len(s)])))
 
-InfinityUnits == Lit("Infinity")
+InfinityUnits == CU("Infinity")
 \* characters that could make a string a numeric literal this module does not parse
 NumericLooking(s) == \A i \in 1..Len(s) :
                         s[i] \in (48..57) \cup {43, 45, 46, 69, 101, 9, 10, 11, 12, 13, 32, 95}
@@ -297,9 +298,9 @@ ToNumber(v) ==
 
 (* 7.1.17 ToString on primitives *)
 ToStr(v) ==
-  CASE v.t = "undef" -> Str(Lit("undefined"))
-    [] v.t = "null"  -> Str(Lit("null"))
-    [] v.t = "bool"  -> Str(IF v.sg = 1 THEN Lit("true") ELSE Lit("false"))
+  CASE v.t = "undef" -> Str(CU("undefined"))
+    [] v.t = "null"  -> Str(CU("null"))
+    [] v.t = "bool"  -> Str(IF v.sg = 1 THEN CU("true") ELSE CU("false"))
     [] v.t = "str"   -> v
     [] v.t = "big"   -> IF v.m = <<>> THEN Str(<<48>>)
                         ELSE Str((IF v.sg = -1 THEN <<45>> ELSE <<>>) \o DigitsOfNat(v.m))
@@ -317,13 +318,13 @@ Truthy(v) ==
 Nullish(v) == v.t \in {"undef", "null"}
 
 TypeOf(v) ==
-  CASE v.t = "undef" -> Str(Lit("undefined"))
-    [] v.t = "null"  -> Str(Lit("object"))
-    [] v.t = "bool"  -> Str(Lit("boolean"))
-    [] v.t = "str"   -> Str(Lit("string"))
-    [] v.t = "big"   -> Str(Lit("bigint"))
-    [] v.t = "obj"   -> Str(Lit("object"))
-    [] IsNum(v)      -> Str(Lit("number"))
+  CASE v.t = "undef" -> Str(CU("undefined"))
+    [] v.t = "null"  -> Str(CU("object"))
+    [] v.t = "bool"  -> Str(CU("boolean"))
+    [] v.t = "str"   -> Str(CU("string"))
+    [] v.t = "big"   -> Str(CU("bigint"))
+    [] v.t = "obj"   -> Str(CU("object"))
+    [] IsNum(v)      -> Str(CU("number"))
     [] OTHER         -> Unk
 
 (* ------------------------------------------------------------------ *)
@@ -439,7 +440,7 @@ NumBin(op, a, b) ==
     [] op = "^"   -> IF a.t = "unk" \/ b.t = "unk" THEN Unk ELSE NumXor(a, b)
 
 BinPrim(op, a, b) ==
-  IF a.t = "unk" \/ b.t = "unk" THEN Unk
+  IF a.t \in {"unk", "err", "undecl", "absent"} \/ b.t \in {"unk", "err", "undecl", "absent"} THEN Unk
   ELSE IF op = "+" THEN
     IF a.t = "str" \/ b.t = "str"
     THEN LET x == ToStr(a) y == ToStr(b)
@@ -465,7 +466,7 @@ BinPrim(op, a, b) ==
 UnOps == {"-", "+", "!", "~", "typeof", "void"}
 UnPrim(op, a) ==
   IF op = "void" THEN Undef
-  ELSE IF a.t = "unk" THEN Unk
+  ELSE IF a.t \in {"unk", "err"} THEN Unk
   ELSE IF op = "typeof" THEN TypeOf(a)
   ELSE IF op = "!" THEN Bool(~Truthy(a))
   ELSE IF a.t = "big" THEN (IF op = "+" THEN TypeErr ELSE Unk)
